@@ -127,3 +127,8 @@ Proof.
   exists m1, m2, blk, extra. split; [exact C1|]. split; [exact C2|exact E2].
 Qed.
 Print Assumptions tr_regcomp_regexec.
+
+(* rnode_count on every tree the parser can return: the model's count, computed without signed overflow *)
+Corollary tr_rnode_count_parsed fuel f s t s' (m : mem) lo hi p d : rnode_parse f s = ReSyntax.Ok (Some t, s') ->
+  tree_in m t lo hi p -> (height t < d)%nat -> callf cprog fuel d F_rnode_count [p] m = Ok (VInt (count t), m).
+Proof. intros Hp T Hd. apply (tr_rnode_count fuel t m lo hi p d T); [eapply parse_count_safe; exact Hp|exact Hd]. Qed.
